@@ -922,6 +922,13 @@ class ConstEval:
             if isinstance(flds, str):
                 flds = flds.replace(",", " ").split()
             return NamedTupleType(tname, tuple(flds))
+        # Cls.__subclasses__(): the classes of the repository that name Cls as a direct base, defined in the same module before this
+        # statement (the order in which the interpreter created them)
+        if isinstance(node.func, ast.Attribute) and node.func.attr == "__subclasses__" and not node.args and not node.keywords:
+            base = self.repo.resolve_class(m, node.func.value)
+            if base is not None:
+                subs = [c for c in m.classes.values() if base in getattr(c, "bases", []) and c.node.lineno < node.lineno]
+                return [ClassRef(c.qualname) for c in sorted(subs, key=lambda c: c.node.lineno)]
         # Enum call: Cls(value) -> member by value
         if fname is not None:
             r = self.repo.resolve(m, fname)
